@@ -529,7 +529,10 @@ def judge(T, req, m, ans):
             o = ops[2 + 5 * j: 2 + 5 * j + 5]
             rc2, evs2, bid2 = parse_burst(o[3])
             el = fn_after(fn1, fn2)
-            subs = [e for e in evs2 if not (e[0] == "R" and e[3] == fn2)]
+            # the burst itself is the last call (when it is delivered); everything before it is a substitution
+            subs = list(evs2)
+            if subs and subs[-1] == ("R", ch, tn, fn2, bid2):
+                subs.pop()
             exp = []
             for i in range(1, el if el < H // 2 else 0):
                 f = (fn1 + i) % H
